@@ -129,6 +129,31 @@ def check(ctx) -> None:
             path=cfg.describe_path(p) if p else [],
         )
 
+    # sources may be dotted paths (`var_0.field`, produced by the assertion trace observer): a reader that
+    # matches them against variable names must take the root of the path
+    for fn_mod, fn_qn in ((TC, "TestCase.remove_unused_variables"), ("pynguin.ga.postprocess", "_directly_asserted_variables")):
+        f = repo.func(fn_mod, fn_qn)
+        ctx.analysed(f)
+        src_reads = [x for x in own_nodes(f) if isinstance(x, ast.Attribute) and x.attr == "source" and isinstance(x.ctx, ast.Load)]
+        names_bound_to_source = {n.targets[0].id for n in own_nodes(f) if isinstance(n, ast.Assign) and isinstance(n.targets[0], ast.Name) and isinstance(n.value, ast.Attribute) and n.value.attr == "source"}
+        uses = list(src_reads) + [x for x in own_nodes(f) if isinstance(x, ast.Name) and x.id in names_bound_to_source and isinstance(x.ctx, ast.Load)]
+        sinks = []
+        for u in uses:
+            p1 = parent(u)
+            if isinstance(p1, ast.Assign):
+                continue  # `source = assertion.source`
+            if isinstance(p1, ast.Call) and norm(p1.func) == "isinstance":
+                continue
+            rooted = isinstance(p1, ast.Attribute) and p1.attr in ("split", "partition") and isinstance(parent(p1), ast.Call) and isinstance(parent(parent(p1)), ast.Subscript) and norm(parent(parent(p1)).slice) == "0"
+            sinks.append((u, rooted))
+        if not sinks:
+            ctx.undecide("C19.live", f, "no use of an assertion source found")
+        for u, rooted in sinks:
+            st = u
+            while not isinstance(st, ast.stmt):
+                st = parent(st)
+            ctx.check("C19.live", st, rooted, f"{fn_qn} matches a (possibly dotted) assertion source `{norm(u)}` against variable names without taking the root of the path: a variable asserted through an attribute is treated as unused", what=f"{fn_qn}: root of assertion source used", stmt=norm(st)[:120] + " [root]")
+
     # ------------------------------------------------------------------ C19.export
     btf = repo.func(EXP, "TestSuiteWriter._build_test_function")
     ctx.analysed(btf)
